@@ -88,6 +88,11 @@ impl Check for C16 {
             let t = lib[k].clone();
             lib.insert(k.clone(), format!("# Same Title\n\n{}", t));
         }
+        // titles that contain links to other notes (a title must not depend on which of the two notes was loaded first)
+        lib.insert("tl1".into(), "# See [alias](tl2) and [other](tl4)\n\ntext\n".into());
+        lib.insert("tl2".into(), "# Beta title\n".into());
+        lib.insert("tl3".into(), "# Gamma\n\n[x](tl1)\n\ninline [y](tl1) link\n".into());
+        lib.insert("tl4".into(), "# [back](tl1)\n\n[z](tl1)\n".into());
         let dir = mon::scratch_dir("c16");
         let file = dir.join("lib.json");
         std::fs::write(&file, serde_json::to_string(&lib).unwrap()).unwrap();
